@@ -21,7 +21,7 @@ func init() {
 		ID: "C01",
 		Meta: func(tier string) fw.Meta {
 			return fw.Meta{
-				Flavours: []string{"plain", "race", "cover"},
+				Flavours: []string{"plain", "race", "cover", "386"},
 				Blocks:   32,
 				Procs:    16,
 				Rule: "(o) sparse-observation histories (trees of 64+ keys, operations chosen with locality, only the results of Get/Min/Max/Add/Replace/Remove themselves observed, on a tree and its clones), nested and interleaved scans (InorderAfter started inside a running scan; pull iterators on a tree and its clone stepped alternately), 8 goroutines each working on its own Clone of one prototype (also under -race); (i) rebuild sweep (seed-independent): the delete-side whole-tree rebuild is forced to run at exactly size s for every s <= 400 (2500 thorough) and for 2^k-3..2^k+3, k <= 13 (16), and the contents are compared afterwards; (ii) case = (beta, comparator granularity incl. comparators that return differences instead of -1/0/+1, bulk-New keys, phase-structured history of Add/Replace/Remove/Clear/Clone over up to 3 live trees). " +
